@@ -30,9 +30,13 @@ import (
 //                (Stringer, HTMLer, Interface(), Iterator, Pathable, Paramable, error, Marshaler):
 //                value, pointer, typed nil pointer, carriers x helpers, operators, output,
 //                iteration, index, members, calls (oracle_c04_iface.go)
+//   C04-mutiter  for-loops whose body changes the collection being iterated (entries deleted,  exhaustive
+//                added, overwritten, variable re-bound; through aliases, user functions, nested
+//                constructs) x iterable kind x position in the body (oracle_c04_mutiter.go)
 //
 // A case is the template text (Go-quoted); the environment is c04EnvFor(template text): c04Env(), plus
-// the shape variables sh* iff the text mentions one, plus the interface variables im* iff the text mentions one.
+// the shape variables sh* iff the text mentions one, plus the interface variables im* iff the text mentions one,
+// plus the multi-entry maps mu* iff the text mentions one.
 
 const c04Timeout = 3 * time.Second
 
@@ -63,6 +67,8 @@ type c04Runner struct {
 	rep      *Report
 	noted    map[string]bool
 	panicFam map[string]int
+	retTag   bool          // count OK and ERR under one tag (streams where which of the two happens depends on Go's map order)
+	hold     func(Failure) // when set, panic failures are handed over instead of being recorded at once (C04-mutiter re-checks them)
 }
 
 func c04NewRunner(stream string, cfg Config) *c04Runner {
@@ -99,9 +105,13 @@ func (r *c04Runner) check(tmpl string, tags ...string) {
 		return
 	}
 	rep.Count(caseText, true)
-	rep.Tag(kind)
+	tagKind := kind
+	if r.retTag && (kind == "OK" || kind == "ERR") {
+		tagKind = "RETURNED"
+	}
+	rep.Tag(tagKind)
 	for _, t := range tags {
-		rep.Tag(t + "/" + kind)
+		rep.Tag(t + "/" + tagKind)
 	}
 	switch kind {
 	case "PANIC":
@@ -112,9 +122,14 @@ func (r *c04Runner) check(tmpl string, tags ...string) {
 			r.noted[fam] = true
 			rep.Notes = append(rep.Notes, "panic root cause ["+fam+"] first seen at "+caseText)
 		}
-		rep.Fail(Failure{Case: caseText, Kind: "panic", Site: o.Site,
+		f := Failure{Case: caseText, Kind: "panic", Site: o.Site,
 			What:  "template parses and the data is ordinary Go data, so Render must return (output, error); it panicked: " + o.Panic,
-			Extra: cls})
+			Extra: cls}
+		if r.hold != nil {
+			r.hold(f)
+		} else {
+			rep.Fail(f)
+		}
 	case "HANG":
 		rep.Fail(Failure{Case: caseText, Kind: "hang", Site: "evaluator",
 			What: fmt.Sprintf("Render did not return within %v", c04Timeout)})
@@ -460,7 +475,7 @@ func init() {
 		}
 		note := "A panic is attributed to plush because no helper, method or iterator of the C04 environment can panic (nil receivers/maps/funcs handled). Not generated on purpose: self-referential data (xs[0] = xs then printing xs) and recursive user functions / partials — they exhaust the Go stack, which kills the process and cannot be observed in-process; loops over huge ranges (C19's subject)."
 		// the streams are independent (own report, own random state): run them side by side
-		streams := []func(Config) *Report{c04Infix, c04Index, c04Member, c04Iter, c04Call, c04Builtin, c04Rand, c04Shapes, c04Iface}
+		streams := []func(Config) *Report{c04Infix, c04Index, c04Member, c04Iter, c04Call, c04Builtin, c04Rand, c04Shapes, c04Iface, c04MutIter}
 		reps := make([]*Report, len(streams))
 		var wg sync.WaitGroup
 		for i := range streams {
